@@ -23,6 +23,7 @@ import (
 	"os"
 	"runtime"
 	"sort"
+	"strconv"
 	"strings"
 	"sync"
 	"time"
@@ -77,6 +78,13 @@ var (
 	freeActive int
 )
 
+var gatedProcs = func() int {
+	if n, err := strconv.Atoi(os.Getenv("VERIF_C15_PROCS")); err == nil && n > 0 {
+		return n
+	}
+	return 1
+}()
+
 func enterFree() func() {
 	procMu.Lock()
 	freeActive++
@@ -88,7 +96,7 @@ func enterFree() func() {
 		procMu.Lock()
 		freeActive--
 		if freeActive == 0 {
-			runtime.GOMAXPROCS(1)
+			runtime.GOMAXPROCS(gatedProcs)
 		}
 		procMu.Unlock()
 	}
@@ -564,7 +572,7 @@ func selfTest(env *fw.Env, acc []*fw.Trace) []*fw.Trace {
 func main() {
 	corelog.SetDefault(corelog.NewNopLogger())
 	installReader()
-	runtime.GOMAXPROCS(1)
+	runtime.GOMAXPROCS(gatedProcs)
 	fw.Main(&fw.Property{
 		ID:          "C15",
 		DesignRef:   "DESIGN.md §5 C15",
